@@ -6,7 +6,127 @@
 //! every real position: props/C02.v), so an over-restricting implementation (C13's defect) does
 //! not disturb C02.  Oracle: enforced limit <= pointwise minimum recomputed from the network at
 //! every breakpoint and inside every gap; profile of every split == profile of the whole route.
+//! "The train's own maximum speed": kinds `train_params` (TrainConfig::make_train_params against
+//! coq/model/TrainCfg.v, all nine fields; oracle: speed_max = minimum over the vehicle types PRESENT)
+//! and `profile_cfg` (a route run with the parameters of a configured train of several vehicle types;
+//! oracle: the enforced limit is nowhere above the maximum speed of any vehicle in the train).
 use crate::c13::{run_mode, Mode};
+use crate::trk::*;
 use crate::util::*;
+use altrios_core::prelude::*;
+use altrios_core::track::TrainParams;
+use altrios_core::train::{RailVehicle, TrainConfig};
+use altrios_core::uc;
+use serde_json::json;
+use std::collections::HashMap;
 
-pub fn run(seed: u64, n: usize, sink: &mut Sink) { run_mode(seed, n, sink, Mode::C02); }
+struct Cfg { rvs: Vec<RailVehicle>, n: Vec<u32>, ttype: TrainType, tm: Option<f64>, tl: Option<f64> }
+
+fn gen_cfg(r: &mut Rng, k: usize) -> Cfg {
+    let m = 1 + r.below(3);
+    let mut rvs = vec![]; let mut n = vec![];
+    for i in 0..m {
+        let mut rv = RailVehicle::default();
+        rv.car_type = format!("T{}", i);
+        rv.length = uc::M * *r.pick(&[16.5, 18.0, 21.3, 25.0]);
+        rv.axle_count = *r.pick(&[4u8, 4, 6, 8]); rv.brake_count = *r.pick(&[1u8, 1, 2]);
+        rv.mass_static_base = uc::KG * r.range(20000.0, 40000.0).round();
+        rv.mass_freight = uc::KG * if r.chance(0.3) { 0.0 } else { r.range(10000.0, 100000.0).round() };
+        rv.speed_max = uc::MPS * *r.pick(&[15.0, 20.0, 22.352, 25.0, 26.8224, 31.0, 35.7632]);
+        rv.mass_rot_per_axle = uc::KG * r.range(500.0, 900.0).round();
+        rv.curve_coeff_0 = uc::R * r.range(0.0, 0.5); rv.curve_coeff_1 = uc::R * r.range(0.0, 800.0); rv.curve_coeff_2 = uc::R * r.range(0.0, 2000.0);
+        rvs.push(rv);
+        // a type listed but absent from the train (zero cars) must not lower the maximum speed
+        n.push(if m > 1 && r.chance(0.2) { 0 } else { 1 + r.below(120) as u32 });
+    }
+    if n.iter().all(|x| *x == 0) { n[0] = 10; }
+    // the slowest type is often not the first one listed
+    if m > 1 && k % 2 == 0 { let j = 1 + r.below(m - 1); if rvs[j].speed_max.value >= rvs[0].speed_max.value { let v = rvs[0].speed_max; rvs[0].speed_max = rvs[j].speed_max; rvs[j].speed_max = v * 0.8; } }
+    let ttype = *r.pick(&[TrainType::Freight, TrainType::Passenger, TrainType::Intermodal]);
+    Cfg { rvs, n, ttype, tm: if r.chance(0.15) { Some(r.range(1.0e6, 2.0e7).round()) } else { None }, tl: if r.chance(0.15) { Some(r.range(200.0, 3000.0).round()) } else { None } }
+}
+fn cfg_build(c: &Cfg) -> anyhow::Result<TrainConfig> {
+    let map: HashMap<String, u32> = c.rvs.iter().zip(c.n.iter()).map(|(rv, n)| (rv.car_type.clone(), *n)).collect();
+    TrainConfig::new(c.rvs.clone(), map, c.ttype, c.tl.map(|x| uc::M * x), c.tm.map(|x| uc::KG * x), None)
+}
+fn coq_rvs(c: &Cfg) -> String {
+    format!("[{}]", c.rvs.iter().zip(c.n.iter()).map(|(rv, n)| format!("Build_RV {} {} {} {} {} {} {} {} {} {} {}", cz(*n as i64), cf(rv.length.value), cf(rv.speed_max.value),
+        cf(rv.mass_static_base.value), cf(rv.mass_freight.value), cf(rv.mass_rot_per_axle.value), cz(rv.axle_count as i64), cz(rv.brake_count as i64),
+        cf(rv.curve_coeff_0.value), cf(rv.curve_coeff_1.value), cf(rv.curve_coeff_2.value))).collect::<Vec<_>>().join("; "))
+}
+fn coq_cfg_args(c: &Cfg) -> String {
+    format!("{} {} {} {}", coq_rvs(c), cz(c.ttype as u8 as i64), copt(c.tm.map(cf)), copt(c.tl.map(cf)))
+}
+fn cfg_json(c: &Cfg) -> serde_json::Value {
+    json!({"rail_vehicles": c.rvs.iter().zip(c.n.iter()).map(|(rv, n)| json!({"car_type": rv.car_type, "n_cars": n, "speed_max": rv.speed_max.value, "length": rv.length.value,
+        "mass_static_base": rv.mass_static_base.value, "mass_freight": rv.mass_freight.value, "axle_count": rv.axle_count, "brake_count": rv.brake_count})).collect::<Vec<_>>(),
+        "train_type": c.ttype as u8, "train_mass": c.tm, "train_length": c.tl})
+}
+fn min_present(c: &Cfg) -> f64 { c.rvs.iter().zip(c.n.iter()).filter(|(_, n)| **n > 0).map(|(rv, _)| rv.speed_max.value).fold(f64::INFINITY, f64::min) }
+fn outs_tp(tp: &TrainParams) -> Outs {
+    let mut o = Outs::new();
+    o.f("tp.length", tp.length.value, 1.0); o.f("tp.speed_max", tp.speed_max.value, 1.0); o.f("tp.towed_mass_static", tp.towed_mass_static.value, 1.0);
+    o.f("tp.mass_per_brake", tp.mass_per_brake.value, 1.0); o.z("tp.axle_count", tp.axle_count as i64); o.z("tp.train_type", tp.train_type as u8 as i64);
+    o.f("tp.curve_coeff_0", tp.curve_coeff_0.value, 1.0); o.f("tp.curve_coeff_1", tp.curve_coeff_1.value, 1.0); o.f("tp.curve_coeff_2", tp.curve_coeff_2.value, 1.0);
+    o
+}
+
+fn cfg_cases(r: &mut Rng, n: usize, sink: &mut Sink) {
+    let mut k = 0usize; let mut made = 0usize;
+    while made < n {
+        let mut c = gen_cfg(r, k); k += 1;
+        // the route the configured train will run on: its links carry speed sets for the route's train type
+        let mut rt = gen_route(r, &RouteOpts { max_links: 5, geom: false, malformed: false, plain_speeds: false });
+        c.ttype = rt.tp.train_type;
+        let tc = match cfg_build(&c) { Ok(t) => t, Err(_) => continue };
+        let res = catch(std::panic::AssertUnwindSafe(|| tc.make_train_params()));
+        let slowest_first = c.rvs.iter().zip(c.n.iter()).filter(|(_, n)| **n > 0).map(|(rv, _)| rv.speed_max.value).next() == Some(min_present(&c));
+        let mut tags = vec![format!("vehicle_types:{}", c.rvs.len()), format!("absent_type:{}", c.n.iter().any(|x| *x == 0)), format!("slowest_present_type_listed_first:{}", slowest_first),
+            format!("overrides:{}", match (c.tm.is_some(), c.tl.is_some()) { (false, false) => "none", (true, false) => "mass", (false, true) => "length", _ => "both" })];
+        let mut fails = vec![];
+        let outcome = match &res {
+            Ok(Ok(tp)) => {
+                tags.push("result:ok".into());
+                let want = min_present(&c);
+                if tp.speed_max.value != want { fails.push(format!("the train's maximum speed is {} but the slowest vehicle type present in the train allows {}", tp.speed_max.value, want)); }
+                Outcome::Ok(outs_tp(tp))
+            }
+            Ok(Err(e)) => { tags.push("result:err".into()); Outcome::Err(999, format!("{:#}", e)) }
+            Err(p) => { tags.push("result:panic".into()); Outcome::Panic(p.clone()) }
+        };
+        sink.put(Case { id: format!("train_params/{}", k - 1), kind: "train_params".into(), coq: format!("x_make_train_params {}", coq_cfg_args(&c)), outcome, tags,
+            input: cfg_json(&c), oracle_fail: fails, known: vec![], in_domain: true });
+        made += 1;
+        if made >= n { break; }
+        // the same train on a route: enforced limit <= maximum speed of every vehicle present, everywhere
+        if let Ok(Ok(tp)) = &res {
+            rt.tp = *tp;
+            let parts = if rt.path.len() > 1 && r.chance(0.5) { let cut = 1 + r.below(rt.path.len() - 1); vec![rt.path[..cut].to_vec(), rt.path[cut..].to_vec()] } else { vec![rt.path.clone()] };
+            let path_res = run_path(&rt.net, &rt.tp, &parts, false);
+            let mut tags = rt.tags.clone(); tags.push(format!("vehicle_types:{}", c.rvs.len())); tags.push(format!("extend_calls:{}", parts.len()));
+            let mut fails = vec![];
+            let (outcome, coq) = match &path_res {
+                Ok(p) => {
+                    let pts = speed_pts(p);
+                    let cap = min_present(&c);
+                    for (x, v) in &pts { if *v > cap { fails.push(format!("enforced limit {} from position {} exceeds {} , the maximum speed of a vehicle type present in the train", v, x, cap)); break; } }
+                    if rt.in_domain { let (hi, _, _) = speed_oracle(&rt.net, &rt.tp, &rt.path, &pts); fails.extend(hi); }
+                    let mut o = Outs::new(); o.b("impl_profile_le_model_profile_everywhere", true);
+                    (Outcome::Ok(o), format!("x_speed_le_cfg {} {} {} {}", coq_net(&rt.net), coq_cfg_args(&c), coq_parts(&parts), coq_pts(&pts)))
+                }
+                Err((-1, m)) => (Outcome::Panic(m.clone()), String::new()),
+                Err((cc, m)) => (Outcome::Err(*cc, m.clone()), String::new()),
+            };
+            let mut input = net_json(&rt.net, &rt.tp, &parts); input["train_config"] = cfg_json(&c);
+            sink.put(Case { id: format!("profile_cfg/{}", k - 1), kind: "profile_cfg".into(), coq, outcome, tags, input, oracle_fail: fails, known: vec![], in_domain: rt.in_domain });
+            made += 1;
+        }
+    }
+}
+
+pub fn run(seed: u64, n: usize, sink: &mut Sink) {
+    let n_cfg = n / 6;
+    run_mode(seed, n - n_cfg, sink, Mode::C02);
+    let mut r = Rng::new(seed ^ 0xC02_CF6);
+    cfg_cases(&mut r, n_cfg, sink);
+}
